@@ -468,25 +468,29 @@ class Connection(object):
         with self._write_lock:  # pylint: disable=not-context-manager
             self.connected = False
 
-            if not immediate and self.socket is not None:
-                # Flush any packets remaining in the queue.
-                while self._pop_packet():
-                    pass
+            try:
+                if not immediate and self.socket is not None:
+                    # Flush any packets remaining in the queue.
+                    while self._pop_packet():
+                        pass
+            except IOError:
+                # The connection is already broken: nothing more can be sent.
+                pass
+            finally:
+                if self.new_networking_thread is not None:
+                    self.new_networking_thread.interrupt = True
+                elif self.networking_thread is not None:
+                    self.networking_thread.interrupt = True
 
-            if self.new_networking_thread is not None:
-                self.new_networking_thread.interrupt = True
-            elif self.networking_thread is not None:
-                self.networking_thread.interrupt = True
-
-            if self.socket is not None:
-                try:
-                    self.socket.shutdown(socket.SHUT_RDWR)
-                except socket.error:
-                    pass
-                finally:
-                    self.file_object.close()
-                    self.socket.close()
-                    self.socket = None
+                if self.socket is not None:
+                    try:
+                        self.socket.shutdown(socket.SHUT_RDWR)
+                    except socket.error:
+                        pass
+                    finally:
+                        self.file_object.close()
+                        self.socket.close()
+                        self.socket = None
 
     def _handshake(self, next_state=STATE_PLAYING):
         handshake = serverbound.handshake.HandShakePacket()
